@@ -441,17 +441,26 @@ func c18Script(r *kit.Run, idx int64, rng *rand.Rand) {
 	dom := 6 + rng.IntN(3)
 	var sets [2]*dt.Set[int]
 	var mods [2]*setModel
+	var script []string
 	for k := range sets {
 		sets[k] = &dt.Set[int]{}
+		mods[k] = newSetModel(ordered)
+		if !ordered && rng.IntN(3) == 0 {
+			// an unordered set that starts out from a slice (duplicates included)
+			init := []int{rng.IntN(dom), rng.IntN(dom), rng.IntN(dom), rng.IntN(dom)}
+			sets[k] = dt.NewSetFromSlice(init)
+			for _, x := range init {
+				mods[k].add(x)
+			}
+			script = append(script, fmt.Sprintf("S%d = NewSetFromSlice(%v)", k, init))
+		}
 		if synced {
 			sets[k].Synchronize()
 		}
 		if ordered {
 			sets[k].Order()
 		}
-		mods[k] = newSetModel(ordered)
 	}
-	var script []string
 	kinds := map[string]bool{}
 	nops := 1 + rng.IntN(35)
 	caseDesc := func() any {
